@@ -359,4 +359,188 @@ Section SurrogateProofs.
     specialize (IH s1). destruct (run step s1 rs) as [s2 os]. cbn [fst snd] in *.
     destruct IH as [I1 I2]. split; congruence.
   Qed.
+
+  (* ------------------------------------------------------------ seeding the training set *)
+  (* read_from_data_store appends (vector, costs) of every individual of the problem, in order,
+     and touches neither the counters, nor `trained`, nor any call log *)
+  Theorem read_from_data_store_spec : forall (inds : list (V * C)) (s : state),
+    let s' := read_from_data_store s inds in
+    x_data s' = x_data s ++ map fst inds /\ y_data s' = y_data s ++ map snd inds /\
+    eval_counter s' = eval_counter s /\ predict_counter s' = predict_counter s /\
+    trained s' = trained s /\ train_log s' = train_log s /\ obj_log s' = obj_log s /\
+    hook_log s' = hook_log s.
+  Proof.
+    unfold read_from_data_store.
+    induction inds as [|p inds IH]; intros s; cbn zeta.
+    - cbn. rewrite !app_nil_r. repeat split.
+    - cbn [fold_left]. specialize (IH (add_data s (fst p) (snd p))). cbn zeta in IH.
+      destruct IH as (I1 & I2 & I3 & I4 & I5 & I6 & I7 & I8).
+      rewrite I1, I2, I3, I4, I5, I6, I7, I8. cbn. rewrite <- !app_assoc. repeat split.
+  Qed.
+
+  (* a user call of train(): only the train log and `trained` change *)
+  Theorem user_train_spec (s : state) :
+    let s' := do_train train_out s in
+    train_log s' = train_log s ++ [(eval_counter s, length (x_data s), length (y_data s))] /\
+    trained s' = train_out (length (train_log s)) /\
+    eval_counter s' = eval_counter s /\ predict_counter s' = predict_counter s /\
+    x_data s' = x_data s /\ y_data s' = y_data s /\ obj_log s' = obj_log s /\ hook_log s' = hook_log s.
+  Proof. cbn. repeat split. Qed.
+
+  (* Two states with the same bookkeeping but possibly different training sets (e.g. one of them
+     seeded by read_from_data_store, so that |x_data| <> eval_counter): nothing the wrapper
+     decides depends on the training set or its size. *)
+  Definition same_accounting (a b : state) : Prop :=
+    trained a = trained b /\ eval_counter a = eval_counter b /\ predict_counter a = predict_counter b /\
+    map cnt_of (train_log a) = map cnt_of (train_log b) /\
+    map (fun e => (vec_of e, snd e)) (obj_log a) = map (fun e => (vec_of e, snd e)) (obj_log b) /\
+    hook_log a = hook_log b.
+
+  Lemma same_accounting_refl a : same_accounting a a.
+  Proof. repeat split. Qed.
+
+  Lemma evaluate_individual_same_accounting (a b : state) (r : req) : same_accounting a b ->
+    snd (evaluate_individual train_step train_out a r) = snd (evaluate_individual train_step train_out b r) /\
+    same_accounting (fst (evaluate_individual train_step train_out a r))
+                    (fst (evaluate_individual train_step train_out b r)).
+  Proof.
+    intros (T & E & P & L & O & H).
+    pose proof (f_equal (@length _) L) as LL. rewrite !map_length in LL.
+    unfold evaluate_individual, same_accounting. cbn zeta.
+    destruct (train_step =? -1)%Z; [|destruct (train_step =? 0)%Z]; cbn [fst snd];
+      try (cbn; rewrite ?map_app, T, E, P, L, O, H; cbn; rewrite ?E; repeat split; fail).
+    cbn [eval_counter add_data count_eval log_obj]. rewrite E.
+    destruct (Z.of_nat (S (eval_counter b)) mod train_step =? 0)%Z;
+      cbn; rewrite ?map_app, ?T, ?E, ?P, ?L, ?O, ?H, ?LL; cbn; rewrite ?E; repeat split.
+  Qed.
+
+  Lemma step_same_accounting (a b : state) (r : req) : same_accounting a b ->
+    snd (step a r) = snd (step b r) /\ same_accounting (fst (step a r)) (fst (step b r)).
+  Proof.
+    intros SA. pose proof SA as (T & E & P & L & O & H).
+    unfold predict_evaluate. rewrite T.
+    destruct (trained b && has_hook).
+    - destruct (r_hook r) as [v|].
+      + cbn. unfold same_accounting. cbn. rewrite T, E, P, L, O, H. repeat split.
+      + assert (SA' : same_accounting (log_hook a (r_vec r)) (log_hook b (r_vec r))).
+        { unfold same_accounting. cbn. rewrite T, E, P, L, O, H. repeat split. }
+        pose proof (evaluate_individual_same_accounting _ _ r SA') as [Q1 Q2].
+        destruct (evaluate_individual train_step train_out (log_hook a (r_vec r)) r) as [sa oa].
+        destruct (evaluate_individual train_step train_out (log_hook b (r_vec r)) r) as [sb ob].
+        cbn in *. subst. split; [reflexivity|assumption].
+    - pose proof (evaluate_individual_same_accounting _ _ r SA) as [Q1 Q2].
+      destruct (evaluate_individual train_step train_out a r) as [sa oa].
+      destruct (evaluate_individual train_step train_out b r) as [sb ob].
+      cbn in *. subst. split; [reflexivity|assumption].
+  Qed.
+
+  Theorem run_same_accounting : forall (reqs : list req) (a b : state), same_accounting a b ->
+    snd (run step a reqs) = snd (run step b reqs) /\
+    same_accounting (fst (run step a reqs)) (fst (run step b reqs)).
+  Proof.
+    induction reqs as [|r rs IH]; intros a b SA; cbn [run].
+    - split; [reflexivity|exact SA].
+    - pose proof (step_same_accounting a b r SA) as [Q1 Q2].
+      destruct (step a r) as [a1 oa]. destruct (step b r) as [b1 ob]. cbn [fst snd] in *. subst ob.
+      specialize (IH a1 b1 Q2). destruct (run step a1 rs) as [a2 osa]. destruct (run step b1 rs) as [b2 osb].
+      cbn [fst snd] in *. destruct IH as [I1 I2]. subst. split; [reflexivity|assumption].
+  Qed.
+
+  (* seeding changes nothing but the training set: same answers, same counters, same `trained`,
+     train() at the same evaluation counters; the seeded pairs stay in front of the new ones *)
+  Theorem seeding_changes_only_training_set : forall (inds : list (V * C)) (reqs : list req) (s : state),
+    let a := run step (read_from_data_store s inds) reqs in
+    let b := run step s reqs in
+    snd a = snd b /\
+    trained (fst a) = trained (fst b) /\ eval_counter (fst a) = eval_counter (fst b) /\
+    predict_counter (fst a) = predict_counter (fst b) /\
+    map cnt_of (train_log (fst a)) = map cnt_of (train_log (fst b)) /\
+    map cnt_of (train_log (fst a)) =
+      map cnt_of (train_log s) ++
+      filter fires (seq (S (eval_counter s)) (eval_counter (fst a) - eval_counter s)) /\
+    x_data (fst a) = x_data s ++ map fst inds ++ map r_vec (evaluated reqs (snd a)) /\
+    y_data (fst a) = y_data s ++ map snd inds ++ map r_true (evaluated reqs (snd a)).
+  Proof.
+    intros inds reqs s. cbn zeta.
+    pose proof (read_from_data_store_spec inds s) as R. cbn zeta in R.
+    destruct R as (R1 & R2 & R3 & R4 & R5 & R6 & R7 & R8).
+    assert (SA : same_accounting (read_from_data_store s inds) s).
+    { unfold same_accounting. rewrite R3, R4, R5, R6, R7, R8. repeat split. }
+    pose proof (run_same_accounting reqs _ _ SA) as [Q1 (T & E & P & L & _)].
+    pose proof (run_spec reqs (read_from_data_store s inds)) as S1. cbn zeta in S1.
+    destruct S1 as (_ & _ & _ & _ & X & Y & _).
+    pose proof (retrain_schedule reqs s) as S2. cbn zeta in S2.
+    rewrite X, Y, R1, R2, <- !app_assoc, L, E.
+    repeat split; assumption.
+  Qed.
+
+  (* ------------------------------------------------------------ sessions *)
+  Lemma set_nth_length {A : Type} : forall (l : list A) k a, length (set_nth l k a) = length l.
+  Proof. induction l as [|h t IH]; intros [|k] a; cbn; try reflexivity. rewrite IH. reflexivity. Qed.
+
+  Lemma nth_error_set_nth_eq {A : Type} : forall (l : list A) k a x,
+    nth_error l k = Some x -> nth_error (set_nth l k a) k = Some a.
+  Proof. induction l as [|h t IH]; intros [|k] a x E; cbn in *; try discriminate; eauto. Qed.
+
+  Lemma nth_error_set_nth_neq {A : Type} : forall (l : list A) k j a,
+    j <> k -> nth_error (set_nth l k a) j = nth_error l j.
+  Proof.
+    induction l as [|h t IH]; intros [|k] [|j] a N; cbn; try reflexivity; try congruence.
+    apply IH. congruence.
+  Qed.
+
+  Notation event := (event V C).
+  Notation wrapper := (wrapper V C).
+  Notation session := (session V C).
+
+  Definition is_use (e : event) : bool := match e with EUse _ => true | _ => false end.
+
+  (* an event other than the assignment of problem.surrogate acts on the wrapper that is
+     problem.surrogate, exactly as wrapper_event says, and on nothing else *)
+  Theorem session_event_current (ss : session) (e : event) (w : wrapper) :
+    is_use e = false -> nth_error (slots ss) (cur ss) = Some w ->
+    let ss' := fst (session_event has_hook ss e) in
+    cur ss' = cur ss /\ length (slots ss') = length (slots ss) /\
+    nth_error (slots ss') (cur ss) = Some (fst (wrapper_event has_hook w e)) /\
+    snd (session_event has_hook ss e) = snd (wrapper_event has_hook w e) /\
+    (forall j, j <> cur ss -> nth_error (slots ss') j = nth_error (slots ss) j).
+  Proof.
+    intros U W. unfold session_event. rewrite W.
+    destruct e; try discriminate; cbn zeta;
+      destruct (wrapper_event has_hook w _) as [w' o] eqn:E; cbn [fst snd cur slots];
+      (repeat split; [apply set_nth_length | eapply nth_error_set_nth_eq; eassumption
+                     | intros j N; apply nth_error_set_nth_neq; assumption]).
+  Qed.
+
+  (* assigning problem.surrogate changes no wrapper *)
+  Theorem session_use (ss : session) (k : nat) :
+    let ss' := fst (session_event has_hook ss (EUse k)) in
+    slots ss' = slots ss /\ snd (session_event has_hook ss (EUse k)) = None /\
+    (k < length (slots ss) -> cur ss' = k).
+  Proof.
+    unfold session_event. cbn [fst snd]. destruct (k <? length (slots ss)) eqn:E; cbn [cur slots]; repeat split; intros; lia.
+  Qed.
+
+  (* a request in a session is one step of the wrapper class with the wrapper's current train_step
+     and train() oracle from the wrapper's current state: the per-request theorems apply to it *)
+  Theorem wrapper_request (w : wrapper) (r : req) :
+    let res := wrapper_event has_hook w (EReq r) in
+    let st := if w_pass w then passthrough_evaluate (w_st w) r
+              else predict_evaluate (w_ts w) has_hook (w_tape w) (w_st w) r in
+    w_st (fst res) = fst st /\ snd res = Some (snd st) /\
+    w_pass (fst res) = w_pass w /\ w_ts (fst res) = w_ts w /\ w_tape (fst res) = w_tape w.
+  Proof.
+    intros res st. subst res st. unfold wrapper_event, wrapper_step. destruct (w_pass w) eqn:P.
+    - cbn. rewrite ?P. repeat split.
+    - destruct (predict_evaluate (w_ts w) has_hook (w_tape w) (w_st w) r) as [s o]. cbn. rewrite ?P. repeat split.
+  Qed.
+
+  (* the other events on a wrapper *)
+  Theorem wrapper_other_events (w : wrapper) :
+    (forall inds, fst (wrapper_event has_hook w (ESeed inds)) = with_st w (read_from_data_store (w_st w) inds)) /\
+    (fst (wrapper_event has_hook w ETrain) = if w_pass w then w else with_st w (do_train (w_tape w) (w_st w))) /\
+    (forall ts, let w' := fst (wrapper_event has_hook w (ESetStep ts)) in
+                w_ts w' = ts /\ w_st w' = w_st w /\ w_pass w' = w_pass w /\ w_tape w' = w_tape w) /\
+    (forall b, fst (wrapper_event has_hook w (ESetTrained b)) = with_st w (set_trained (w_st w) b)).
+  Proof. cbn. repeat split. Qed.
 End SurrogateProofs.
